@@ -426,6 +426,27 @@ def main():
         else:
             notes.append('supplementary theorems Props/%s.v not checked in this run (a file of another package it imports does not build)' % e)
     extra_props = built_extra
+    # translator-tied pinned files (STRICT_PROP_FILES, e.g. Props/Gen.v over the regenerated Gen/GenField.v): they are
+    # rebuilt against the text the translator produced from the working tree in pre(); a failure IS a lost obligation
+    strict_props = [e for e in getattr(prop, 'STRICT_PROP_FILES', []) if os.path.exists('%s/Props/%s.v' % (COQ, e))]
+    strict_lost = []
+    for e in strict_props:
+        rce, oute = coq_make(['Props/%s.vo' % e], timeout=3400)
+        if rce == 0:
+            extra_props.append(e)
+            extra_thms[e] = theorem_names('%s/Props/%s.v' % (COQ, e))
+        else:
+            log(oute[-2000:])
+            m = re.search(r'File "\./([^"]+)", line (\d+)', oute)
+            where, lem = (m.group(0) if m else 'unknown location'), '?'
+            if m:
+                try:
+                    src = open(os.path.join(COQ, m.group(1))).read().splitlines()[:int(m.group(2))]
+                    ls = [l for l in src if re.match(r'\s*(Lemma|Theorem|Example|Corollary)\s', l)]
+                    lem = ls[-1].split()[1] if ls else '?'
+                except OSError:
+                    pass
+            strict_lost.append('translator-tied obligation Props/%s.v no longer checks against the regenerated model: %s (%s)' % (e, lem, where))
     discharged = 0
     failing_obligation = None
     ax_report = {}
@@ -468,6 +489,7 @@ def main():
             if bad or unsafe:
                 lost.append('coqchk reports assumptions outside the allow-list: %s %s' % (bad[:5], unsafe[:3]))
             coqchk_report = {'modules': mods, 'axioms': axl or ['<none>'], 'unsafe': unsafe or ['<none>']}
+    lost.extend(strict_lost)
     hits = forbidden_scan()
     if hits:
         lost.append('forbidden constructs in the development: ' + '; '.join(hits[:5]))
